@@ -168,10 +168,12 @@ def _stratify_circuit(
             # Update qubit, measurement key, and control key moments.
             for qubit in op.qubits:
                 qubit_time_index[qubit] = time_index
+            # Keep the latest index: operations controlled by the same key commute with each other
+            # and can be placed in any order, but a measurement of that key must follow all of them.
             for key in protocols.measurement_key_objs(op):
-                measurement_time_index[key] = time_index
+                measurement_time_index[key] = max(measurement_time_index.get(key, -1), time_index)
             for key in protocols.control_keys(op):
-                control_time_index[key] = time_index
+                control_time_index[key] = max(control_time_index.get(key, -1), time_index)
 
     return circuits.Circuit(circuits.Moment(moment) for moment in new_moments if moment)
 
